@@ -1,8 +1,11 @@
 package main
 
 import (
+	"os"
 	"fmt"
+	"go/ast"
 	"go/constant"
+	"go/token"
 	"go/types"
 	"sort"
 	"strings"
@@ -46,6 +49,9 @@ func pureExternal(fn *ssa.Function) bool {
 }
 
 func (ex *Exec) lookupContract(key string, arg0 Val) *Contract {
+	if sc := ex.cs.Scoped[key]; sc != nil && (currentProp == "" && os.Getenv("GV_PROP") == "" || hasProp(sc.OnlyProps, currentProp) || hasProp(sc.OnlyProps, os.Getenv("GV_PROP"))) {
+		return sc
+	}
 	c := ex.cs.Funcs[key]
 	if c == nil || c.Sweep {
 		return nil
@@ -178,14 +184,16 @@ func (ex *Exec) callStatic(fr *Frame, st *State, fn *ssa.Function, free []Val, a
 		if ct.Extern || ct.Trusted {
 			ex.assumedUsed[key] = true
 		}
-		ex.fireOnCall(fr, st, key, args, nil, true)
+		ex.fireOnCall(fr, st, key, args, nil, true, x, resT)
 		res := ex.applyContract(fr, st, ct, key, names, ptypes, args, resT, x)
-		ex.fireOnCall(fr, st, key, args, res, false)
+		ex.fireOnCall(fr, st, key, args, res, false, x, resT)
 		return res
 	}
 	if inRepo(fn) && len(fn.Blocks) > 0 && fr.depth < ex.maxInline && !ex.onStack(fn) {
 		ex.inlinedUsed[key] = true
-		return ex.inline(fr, st, fn, free, args, resT)
+		res := ex.inline(fr, st, fn, free, args, resT)
+		ex.fireOnCall(fr, st, key, args, res, false, x, resT)
+		return res
 	}
 	if inRepo(fn) {
 		return ex.havocCall(fr, st, "call "+key+" (no contract, not inlinable)", resT, false)
@@ -487,6 +495,10 @@ func (ex *Exec) applyContract(fr *Frame, st *State, ct *Contract, key string, na
 // assumed outside the carve-out, so callers never rest on a refuted fact.
 func (ex *Exec) assumeEnsures(fr *Frame, ct *Contract, key string, penv *Env) {
 	for i, e := range ct.Ensures {
+		if mentionsGhost(e.Expr, ct) {
+			// a clause over the callee's own ghost variables says nothing to a caller
+			continue
+		}
 		g := ex.evalBool(e, penv)
 		if k := knownFor(key + "#ensures:" + clauseName(e, i)); k != nil {
 			when := tTrue
@@ -519,7 +531,7 @@ func (ex *Exec) bindResult(env *Env, res Val, resT types.Type) {
 }
 
 // fireOnCall applies the ghost updates declared by `oncall` rules.
-func (ex *Exec) fireOnCall(fr *Frame, st *State, key string, args []Val, res Val, before bool) {
+func (ex *Exec) fireOnCall(fr *Frame, st *State, key string, args []Val, res Val, before bool, x ssa.CallInstruction, resT types.Type) {
 	if ex.contract == nil || !fr.isTop || before {
 		return
 	}
@@ -531,17 +543,44 @@ func (ex *Exec) fireOnCall(fr *Frame, st *State, key string, args []Val, res Val
 		if oc.Callee != key && oc.Callee != short {
 			continue
 		}
+		if oc.Ord != 0 && ex.callSiteOrd(fr.fn, x) != oc.Ord {
+			continue
+		}
 		ex.callOrd[oc.Callee]++
-		env := ex.newEnv(fr, st, nil)
+		env := ex.loopEnv(fr, st)
+		var ptypes []types.Type
+		if x != nil {
+			if callee := x.Common().StaticCallee(); callee != nil {
+				for _, p := range callee.Params {
+					ptypes = append(ptypes, p.Type())
+				}
+			}
+		}
 		for i, a := range args {
-			env.vars[fmt.Sprintf("arg%d", i)] = TV{a, nil}
+			var t types.Type
+			if i < len(ptypes) {
+				t = ptypes[i]
+			}
+			env.vars[fmt.Sprintf("arg%d", i)] = TV{a, t}
+		}
+		for g, v := range st.ghost {
+			env.vars[g] = TV{v, nil}
+		}
+		for n, v := range fr.params {
+			if _, shadow := env.vars[n]; !shadow && !strings.HasPrefix(n, "let.") {
+				env.vars[n] = TV{v, fr.ptypes[n]}
+			}
 		}
 		if res != nil {
-			ex.bindResult(env, res, nil)
+			ex.bindResult(env, res, resT)
 		}
 		cond := tTrue
 		if oc.When != nil {
 			cond = ex.evalBool(*oc.When, env)
+		}
+		for i, ck := range oc.Checks {
+			g := Implies(cond, ex.evalBool(ck, env))
+			ex.obligeEnv(fr, "oncall", short+":"+clauseName(ck, i), fr.blockPC, g, token.NoPos, env)
 		}
 		// simultaneous assignment
 		nv := map[string]Val{}
@@ -927,4 +966,54 @@ func (ex *Exec) lookupLiteralMap(gi *globalInit, mt *types.Map, idx Val, commaOk
 		return TupleV{F: []Val{SV{v}, SV{has}}}
 	}
 	return SV{v}
+}
+
+// callSiteOrd: the 1-based ordinal of a static call among the calls to the
+// same callee in fn, in source order (`oncall Callee#n`).
+func (ex *Exec) callSiteOrd(fn *ssa.Function, x ssa.CallInstruction) int {
+	if x == nil || fn == nil {
+		return 0
+	}
+	callee := x.Common().StaticCallee()
+	if callee == nil {
+		return 0
+	}
+	type site struct {
+		pos token.Pos
+		in  ssa.CallInstruction
+	}
+	var sites []site
+	for _, b := range fn.Blocks {
+		for _, in := range b.Instrs {
+			if ci, ok := in.(ssa.CallInstruction); ok && ci.Common().StaticCallee() == callee {
+				sites = append(sites, site{ci.Pos(), ci})
+			}
+		}
+	}
+	sort.SliceStable(sites, func(i, j int) bool { return sites[i].pos < sites[j].pos })
+	for i, s := range sites {
+		if s.in == x {
+			return i + 1
+		}
+	}
+	return 0
+}
+
+// mentionsGhost: the expression names one of the contract's ghost variables.
+func mentionsGhost(e ast.Expr, ct *Contract) bool {
+	if len(ct.Ghosts) == 0 {
+		return false
+	}
+	found := false
+	ast.Inspect(e, func(n ast.Node) bool {
+		if id, ok := n.(*ast.Ident); ok {
+			for _, g := range ct.Ghosts {
+				if g.Name == id.Name {
+					found = true
+				}
+			}
+		}
+		return !found
+	})
+	return found
 }
